@@ -2518,6 +2518,58 @@ class Anchors:
 # =============================================================================================
 # entry points
 # =============================================================================================
+def optimized_interpreter_probe(ctx):
+    """The rejection of a run whose total width is not a multiple of 8 must not depend on the interpreter's mode: the same bad
+    declarations defined by a child process running `python -O` (assert statements stripped) must still raise
+    Bits.ByteBoundaryError.  Only the class statement is judged there."""
+    import json
+    import subprocess
+    import sys
+    run = ctx.run
+    bad = [[3], [12, 1], [4, 8], [7, 16], [1, 1, 1], [5, 5, 5, 8], [9], [23]]
+    code = (
+        "import sys, json\n"
+        "sys.dont_write_bytecode = True\n"
+        "sys.path.insert(0, %r)\n"
+        "from bisturi.packet import Packet\n"
+        "from bisturi.field import Bits, Int\n"
+        "out = []\n"
+        "for widths in %r:\n"
+        "    body = ''.join('    b%%d = Bits(%%d)\\n' %% (i, w) for i, w in enumerate(widths))\n"
+        "    src = 'class Bad(Packet):\\n    __bisturi__ = {\"generate_for_pack\": False, \"generate_for_unpack\": False}\\n    h = Int(1)\\n' + body + '    t = Int(1)\\n'\n"
+        "    ns = {'Packet': Packet, 'Bits': Bits, 'Int': Int}\n"
+        "    try:\n"
+        "        exec(src, ns)\n"
+        "        out.append('accepted')\n"
+        "    except Bits.ByteBoundaryError:\n"
+        "        out.append('ByteBoundaryError')\n"
+        "    except Exception as e:\n"
+        "        out.append(type(e).__name__)\n"
+        "print('RESULT ' + json.dumps({'optimize': sys.flags.optimize, 'out': out}))\n"
+    ) % (common.REPO, bad)
+    for flag in ("-O", "-OO"):
+        try:
+            r = subprocess.run([sys.executable, flag, "-c", code], cwd=ctx.scratch, capture_output=True, text=True, timeout=120)
+        except subprocess.TimeoutExpired:
+            run.count("optimized_interpreter_probe_timeouts")
+            continue
+        line = [l for l in r.stdout.splitlines() if l.startswith("RESULT ")]
+        if not line:
+            run.inconclusive_because("optimized-interpreter probe produced no result: %s" % (r.stderr or "")[-200:])
+            return
+        rep = json.loads(line[0][7:])
+        if not rep["optimize"]:
+            run.inconclusive_because("optimized-interpreter probe did not run optimized")
+            return
+        for widths, got in zip(bad, rep["out"]):
+            run.count("bad_total_rejected_under_optimized_interpreter" if got == "ByteBoundaryError" else "bad_total_not_rejected_under_optimized_interpreter")
+            if got != "ByteBoundaryError":
+                run.violation("bit run with a total width that is not a multiple of 8: under `python %s` the class definition %s instead of raising "
+                              "Bits.ByteBoundaryError" % (flag, "was accepted" if got == "accepted" else "raised " + got),
+                              {"widths": widths, "interpreter_flag": flag, "source": "class Bad(Packet): h = Int(1); " + "; ".join("b%d = Bits(%d)" % (i, w) for i, w in enumerate(widths)) + "; t = Int(1)"})
+                return
+
+
 def run(run):
     shard, nshards = run.shard
     rng = rng_for(run.seed, "c07", shard)
@@ -2528,6 +2580,8 @@ def run(run):
     anchors = ctx.anchors = Anchors()
     anchors.start()
     try:
+        if shard == 0:
+            optimized_interpreter_probe(ctx)
         part_a(ctx, rng_for(run.seed, "c07", "A", shard), shard, nshards)
         run.extra["partA_seconds_summed_over_shards"] = round(time.time() - t0, 1)
         anchors.resume()
